@@ -85,18 +85,18 @@ func genPrio(k *kernel.K) (bool, http2.PriorityParam) {
 }
 
 type h2World struct {
-	k            *kernel.K
-	n            *simnet.Net
-	cl, sv       *H2End
-	cc, sc       net.Conn
-	closing      chan bool
-	mu           sync.Mutex
-	proxyDone    bool
-	proxyErr     error
+	k             *kernel.K
+	n             *simnet.Net
+	cl, sv        *H2End
+	cc, sc        net.Conn
+	closing       chan bool
+	mu            sync.Mutex
+	proxyDone     bool
+	proxyErr      error
 	proxyDoneStep int
-	dialed       bool
-	scSys        *simnet.Conn
-	ccSys        *simnet.Conn
+	dialed        bool
+	scSys         *simnet.Conn
+	ccSys         *simnet.Conn
 }
 
 // newH2World wires a relay between two harness endpoints. The upstream connection is handed
@@ -255,6 +255,13 @@ func runH2(k *kernel.K, focus string) {
 				push = &H2Op{Kind: "push", Stream: id, Promise: uint32(100 + 2*i), NeedOpen: true,
 					Fields: genFields(k, []hpack.HeaderField{{Name: ":method", Value: "GET"}, {Name: ":scheme", Value: "https"}, {Name: ":authority", Value: "origin.test"}, {Name: ":path", Value: fmt.Sprintf("/pushed%d", id)}}, id, false)}
 				pushAt = w.Draw(nd + 1) // before the j-th DATA frame, or after the last one
+				if w.Chance(1, 4) {
+					// the promised request's header block continues in CONTINUATION frames
+					push.Cuts = genCuts(k)
+					if len(push.Cuts) > 0 {
+						k.Probe("push_promise_with_continuation")
+					}
+				}
 			}
 			if push != nil && pushAt == 0 && !h.End {
 				ops = append(ops, push)
